@@ -6,6 +6,10 @@ ALL = ["C%02d" % i for i in range(1, 21)]
 
 # property -> (level, design_ref, engine, technique, level text, level note)
 CLAIMED = {
+ "C02": ("model_checking", "DESIGN.md §2 C02", "vp",
+   "bounded-exhaustive exploration of client scripts, server behaviours and client/server interleavings of the real IPC code (server and client as coroutines in one process, real sockets/epoll/shm, virtual waiting)",
+   "A real qb_ipcs server on a real qb_loop and a real qb_ipcc client run as coroutines of one process on both transports with libqb's minimum negotiated message size. Every client script of 2-3 operations over send (five lengths incl. max and max+1), sendv, recv(0), event_recv(0) and poll(fd_get), every msg_process behaviour per call (echo / nothing / back-off), server actions at loop-iteration boundaries (event_send of three lengths, the four rate-limit settings, a burst of 7 events on minimum-size socket buffers) and every interleaving of client operations with server iterations — plus up to 1 preemption at any system call — is executed. Oracle: three reference FIFOs with byte-exact payloads, a failed send has no effect, EMSGSIZE above the maximum, POLLIN on the client's descriptor while events are queued, drain to quiescence with nothing lost, duplicated or extra.",
+   "Bounds as stated; one client; waiting is virtual (zero-timeout kernel queries + virtual deadlines) while sockets, epoll and shared-memory files are the real kernel objects; word-level ring interleavings are C01's job; kernel buffer sizes of this sandbox."),
  "C08": ("model_checking", "DESIGN.md §2 C08", "vp",
    "bounded-exhaustive enumeration of registration sets and of actions taken at every callback invocation on the real event loop (virtual clock, real epoll/eventfd/signals) against a registration model",
    "Up to 3 registrations (job, zero-delay timer, ready eventfd, SIGUSR1/SIGUSR2 handler, two priorities) are made before qb_loop_run; at every callback invocation the explorer picks one action out of: nothing, delete self, re-add self, add a job, add a 3 ms timer, use a stale timer handle, raise a handled signal, qb_loop_stop, return -1, and for every other registration delete it (also while it is queued for dispatch), toggle its readiness, poll_mod it, or close the descriptor and register a new one with the reused number; at most 2 (thorough 3) non-trivial actions per run. Oracle: jobs and timers exactly once, nothing after a successful delete, FIFO jobs per priority, descriptors called while ready and registered and never after delete/-1, signal callbacks once per delivery and from loop context, stale handles refused, stop makes run return; ASan for freed loop items.",
